@@ -70,7 +70,8 @@ def scenarios_for(prop, tier, rng):
     if prop in ("C15", "C17"):
         cases, r = tlc_cases("c15", 0, f"{prop}-gen"); gens.append(r)
         if not thorough:
-            rng.shuffle(cases); cases = cases[:60]
+            rng.shuffle(cases)
+            cases = [q for q in cases if "ok" not in q][:25] + [q for q in cases if "ok" in q][:60]
         sc = agentgen.c15_scenarios(cases, prop, rng)
         counts = {"c15_cases": len(cases)}
         if prop == "C17":
@@ -79,6 +80,21 @@ def scenarios_for(prop, tier, rng):
         return sc, gens, counts
     if prop == "C10":
         return agentgen.name_scenarios(prop), gens, {"tricky_policy_names": len(agentgen.TRICKY_NAMES)}
+    if prop == "C12":
+        # a session that was established is usable with a conforming server: the router implements NETCONF 1.1 as well
+        # (advertises :base:1.0 and :base:1.1, chunked framing with a client that advertises :base:1.1 too), over the
+        # agent's real transports (TLS and the local cli child)
+        cases, r = tlc_cases("hist", 2, f"{prop}-gen-hist"); gens.append(r)
+        cases = [list(h) for h in cases]; rng.shuffle(cases)
+        sc = agentgen.hist_scenarios(cases[:60 if not thorough else 600], 20, prop, rng, small=2) + agentgen.big_scenarios(prop)[1:]
+        for s in sc:
+            s["caps11"] = True; s["meta"] = dict(s.get("meta") or {}, router="NETCONF 1.0 and 1.1")
+        twins = []
+        if ensure_cli_shim():
+            for s in sc:
+                t = json.loads(json.dumps(s)); t["case"] = s["case"] + "-L"; t["target"] = "local"
+                t["meta"] = dict(t["meta"], target="local"); twins.append(t)
+        return sc + twins, gens, {"routers_that_also_implement_netconf_1.1": len(sc), "of_these_through_the_local_target": len(twins)}
     if prop == "C14":
         cases, r = tlc_cases("garble", 1 if thorough else 0, f"{prop}-gen-garble"); gens.append(r)
         return agentgen.garble_scenarios(cases, prop), gens, {"damaged_reply_cases": len(cases)}
@@ -89,7 +105,11 @@ def scenarios_for(prop, tier, rng):
         cases, r = tlc_cases("shape", 0, f"{prop}-gen"); gens.append(r)
         if not thorough:
             rng.shuffle(cases); cases = cases[:200]
-        return agentgen.shape_scenarios(cases, prop), gens, {"statement_shapes": len(cases)}
+        sc = agentgen.shape_scenarios(cases, prop)
+        hc, r2 = tlc_cases("shapehist", 1 if thorough else 0, f"{prop}-gen-hist"); gens.append(r2)
+        sh = agentgen.shapehist_scenarios(hc, 49, prop)
+        return sc + sh, gens, {"statement_shapes": len(cases), "statement_shape_histories": len(hc),
+                               "routers_with_shape_histories(one process per run + one daemon process)": len(sh)}
     raise ToolError("no scenarios for " + prop)
 
 DATA_INVS = {"C01": "InvConverged InvReadBack InvIdempotent", "C02": "InvUpdateSafe", "C03": "InvUntouched"}
